@@ -15,3 +15,16 @@ func init() {
 		},
 	})
 }
+
+var requestPkgs = []string{"/server", "/cache/disk", "/cache/disk/casblob", "/utils/validate", "/cache/grpcproxy", "/cache/httpproxy", "/cache/s3proxy", "/cache/azblobproxy", "/cache"}
+
+func init() {
+	register(&PropCheck{
+		ID:          "C14",
+		Explanation: "debug",
+		Trusted:     commonTrusted,
+		Run: func(c *Ctx) {
+			guardFacts(c, requestPkgs, true, true, true)
+		},
+	})
+}
